@@ -153,3 +153,18 @@ package influxql
 //@   call (*Buffer).WriteString
 //@     set suffixed = suffixed || arg0 == ".0"
 //@   ensures [integral_float_is_not_printed_like_an_integer] shortest ==> looked && (hasPoint || suffixed)
+
+// A string literal is shipped as text: EVERY literal goes through the escaper (quote, backslash and newline are escaped
+// together - a literal with a backslash but no quote is not "nothing to escape": the store would read `\\srv01` as one
+// backslash, `C:\nightly` with a line feed, and filter on another value).
+//@ prop C12
+//@ func QuoteString
+//@   ghost esc bool = false
+//@   call .Replace
+//@     requires [the_literal_itself_is_escaped] arg0 == s
+//@     set esc = true
+//@   ensures [every_literal_goes_through_the_escaper] esc
+// ... and the escaper escapes exactly newline, backslash and quote.
+//@ func init@var:qsReplacer
+//@   call strings.NewReplacer
+//@     requires [escapes_newline_backslash_and_quote] len(arg0) == 6
